@@ -37,8 +37,8 @@ def run(ctx):
     ctx.rule("C16.R9", "K2", "every assignment of a setting goes through its validator at that moment: Setting.set has no path that skips the call (no memo of earlier results: validators normalise against the "
              "current directory / file system / user database) and stores exactly what the validator returned")
     r9(ctx)
-    ctx.rule("C16.R8", "K3/K8", "the Paste server runner keeps the order of authority: defaults it derives from the Paste ini are set before the gunicorn configuration file is loaded, "
-             "the [server:main] options (its command line) after; nothing derived is smuggled into those options")
+    ctx.rule("C16.R8", "K3/K8", "the Paste server runner keeps the order of authority: the defaults it derives from the Paste ini and the [server:main] options (framework settings) are applied before the "
+             "gunicorn configuration file is loaded")
     r8(ctx)
 
 
@@ -140,21 +140,6 @@ def r8(ctx):
         if isinstance(x, ast.Assign) and len(x.targets) == 1 and isinstance(x.targets[0], ast.Name) and isinstance(x.value, ast.Call) and isinstance(x.value.func, ast.Attribute) \
                 and x.value.func.attr in ("pop", "get") and isinstance(x.value.func.value, ast.Name) and x.value.func.value.id == LC:
             own.add(x.targets[0].id)
-    n = 0
-    for x in ast.walk(f.node):
-        val = None
-        if isinstance(x, ast.Assign) and any(isinstance(t, ast.Subscript) and isinstance(t.value, ast.Name) and t.value.id == LC for t in x.targets):
-            val = x.value
-        elif isinstance(x, ast.Call) and isinstance(x.func, ast.Attribute) and x.func.attr in ("setdefault", "update", "__setitem__") and isinstance(x.func.value, ast.Name) and x.func.value.id == LC:
-            val = ast.Tuple(elts=list(x.args[1:]) + [k.value for k in x.keywords], ctx=ast.Load()) if x.func.attr != "update" else ast.Tuple(elts=list(x.args) + [k.value for k in x.keywords], ctx=ast.Load())
-        if val is None:
-            continue
-        n += 1
-        foreign = sorted(set(y.id for y in ast.walk(val) if isinstance(y, ast.Name) and y.id not in own and y.id != LC))
-        ctx.check("C16.R8", not foreign, key(f, "local-conf-write|" + norm(x)[:50]), site(f, x),
-                  "serve() adds a value derived from %s to the [server:main] options, which are applied last: a default computed by the runner would override the gunicorn configuration file" % foreign,
-                  "only the user's own host/port are folded into the options")
-    ctx.floor("C16.R8", "writes into the server options", n, 1)
     # order inside the runner's load_config (top-level statements)
     body = lc.body
     def idx(pred):
@@ -162,12 +147,16 @@ def r8(ctx):
     files = idx(lambda y: isinstance(y, ast.Call) and isinstance(y.func, ast.Attribute) and y.func.attr.startswith("load_config_from"))
     derived = idx(lambda y: isinstance(y, ast.Call) and isinstance(y.func, ast.Attribute) and y.func.attr == "set" and tail(y.func.value) == "cfg" and y.args and isinstance(const(y.args[0], NO), str))
     opts = idx(lambda y: isinstance(y, ast.For) and any(isinstance(z, ast.Name) and z.id == LC for z in ast.walk(y.iter)))
-    ctx.check("C16.R8", bool(files) and bool(opts), key(f, "runner-sources"), site(f, lc), "the runner's load_config does not load the configuration file and then apply the [server:main] options", "file, then options")
+    ctx.check("C16.R8", bool(files) and bool(opts), key(f, "runner-sources"), site(f, lc), "the runner's load_config does not apply the [server:main] options and load the configuration file", "options, then file")
     if files and opts:
         ctx.check("C16.R8", all(d < min(files) for d in derived), key(f, "derived-before-file"), site(f, lc), "a default derived by the runner (cfg.set('<name>', ..)) is applied after the gunicorn configuration file: it overrides the file",
                   "derived defaults before the file")
-        ctx.check("C16.R8", all(o > max(files) for o in opts), key(f, "options-after-file"), site(f, lc), "the [server:main] options are applied before the gunicorn configuration file: the file overrides the runner's command line",
-                  "options after the file")
+        # the [server:main] block of the Paste ini is a *framework* source (docs/source/configure.rst: "these will be overridden by
+        # the config file and/or the command line"; "Anything specified in this configuration file will override any framework
+        # specific settings"): it is applied before the gunicorn configuration file is loaded
+        ctx.check("C16.R8", all(o < min(files) for o in opts), key(f, "options-before-file"), site(f, lc),
+                  "the [server:main] options of the Paste ini (framework settings) are applied after the gunicorn configuration file: a setting given in both places takes the framework's value, "
+                  "the configuration file is silently overridden (documented order: configuration file over framework settings)", "framework options before the file")
 
 
 def r6(ctx):
